@@ -63,9 +63,10 @@ Ltac body_tac x :=
       end
   end.
 
-Lemma one_body_mono r len id l x : one_body r len id l <> NeedMore -> one_body r len id (l ++ x) = one_body r len id l.
+Lemma one_body_mono pol r len id l x : one_body pol r len id l <> NeedMore -> one_body pol r len id (l ++ x) = one_body pol r len id l.
 Proof.
   unfold one_body.
+  destruct (p_hdr pol len id); [reflexivity|].
   destruct (id =? 0)%N; [reflexivity|]. destruct (id =? 1)%N; [reflexivity|].
   destruct (id =? 2)%N; [reflexivity|]. destruct (id =? 3)%N; [reflexivity|].
   destruct (id =? 4)%N; [body_tac x|].
@@ -77,7 +78,7 @@ Proof.
   reflexivity.
 Qed.
 
-Lemma one_msg_mono r l x : one_msg r l <> NeedMore -> one_msg r (l ++ x) = one_msg r l.
+Lemma one_msg_mono pol r l x : one_msg pol r l <> NeedMore -> one_msg pol r (l ++ x) = one_msg pol r l.
 Proof.
   unfold one_msg.
   destruct (length l <? 4)%nat eqn:E4; [congruence|].
@@ -106,7 +107,7 @@ Ltac some_tac :=
       destruct (rd_some l k) as [v H]; [ rewrite Nat.ltb_ge in *; simpl in *; lia | rewrite H ]
   end.
 
-Lemma one_body_no_fault r len id l : one_body r len id l <> HFault.
+Lemma one_body_no_fault pol r len id l : one_body pol r len id l <> HFault.
 Proof.
   unfold one_body.
   repeat match goal with
@@ -115,7 +116,7 @@ Proof.
   repeat match goal with |- context [if ?c then _ else _] => destruct c end; congruence.
 Qed.
 
-Lemma one_msg_no_fault r l : one_msg r l <> HFault.
+Lemma one_msg_no_fault pol r l : one_msg pol r l <> HFault.
 Proof.
   unfold one_msg.
   destruct (length l <? 4)%nat eqn:E4; [congruence|].
@@ -127,8 +128,8 @@ Proof.
   apply one_body_no_fault.
 Qed.
 
-Lemma one_body_got_len r len id l m n :
-  (5 <= length l)%nat -> one_body r len id l = Got m n -> (4 <= n <= length l)%nat /\ (n <= 17)%nat.
+Lemma one_body_got_len pol r len id l m n :
+  (5 <= length l)%nat -> one_body pol r len id l = Got m n -> (4 <= n <= length l)%nat /\ (n <= 17)%nat.
 Proof.
   intros L. unfold one_body.
   repeat match goal with
@@ -145,7 +146,7 @@ Proof.
 Qed.
 
 (* header sizes *)
-Lemma one_msg_got_len r l m n : one_msg r l = Got m n -> (4 <= n <= length l)%nat /\ (n <= 17)%nat.
+Lemma one_msg_got_len pol r l m n : one_msg pol r l = Got m n -> (4 <= n <= length l)%nat /\ (n <= 17)%nat.
 Proof.
   unfold one_msg.
   destruct (length l <? 4)%nat eqn:E4; [congruence|]. rewrite Nat.ltb_ge in E4.
